@@ -25,6 +25,13 @@ func main() {
 	tab, err := extract.Extract(repo)
 	if err != nil {
 		fmt.Fprintln(os.Stderr, "gen_c03: "+err.Error())
+		if tab != nil {
+			for _, c := range tab.Claims {
+				if c.Err != "" {
+					fmt.Fprintln(os.Stderr, "gen_c03: "+c.Err)
+				}
+			}
+		}
 		os.Exit(1)
 	}
 	if err := os.MkdirAll(out, 0o755); err != nil {
